@@ -1290,6 +1290,12 @@ func (w *World) Finish() {
 	}
 	time.Sleep(2 * time.Minute) // past closeTimeout, upgradeTimeout and heartbeat deadlines
 	synctest.Wait()
+	// every session is closed and every legitimate timeout has run out: a runtime timer that still fires now was left armed
+	// (timers have no goroutine of their own that a census could find)
+	firedBefore := w.g.Hits("timer.fired")
+	time.Sleep(2 * time.Minute)
+	synctest.Wait()
+	timersFiring := w.g.Hits("timer.fired") - firedBefore
 	var left []string
 	for _, g := range GoroutinesInBubble() {
 		if strings.Contains(g, "synctest.Run") || strings.Contains(g, "testingSynctestTest") {
@@ -1315,7 +1321,7 @@ func (w *World) Finish() {
 			kinds[i] = "timeout"
 		}
 	}
-	w.rec.Log("finish", "goroutines", len(left), "left", kinds, "stacks", left)
+	w.rec.Log("finish", "goroutines", len(left), "left", kinds, "stacks", left, "timersFiring", timersFiring)
 }
 
 func stdB64(b []byte) string { return base64Std.EncodeToString(b) }
